@@ -21,6 +21,9 @@ const SK: &str = "accessSecret/abcdefghijklmnopqrstuvwxyz01";
 const CLASSES: &[&str] = &[
     "anonymous", "v4-header", "v4-presigned", "v2-header", "v2-presigned", "v4-header/bad-signature", "v4-presigned/bad-signature", "v2-header/bad-signature", "v2-presigned/bad-signature",
     "v4-header/unknown-key", "duplicated-authorization", "malformed-authorization", "v4-header/unsigned-payload",
+    // a leading part of the right signature (or nothing) where the signature belongs
+    "v4-header/truncated-signature", "v4-presigned/truncated-signature", "v2-header/truncated-signature", "v2-presigned/truncated-signature", "v4-header/empty-signature",
+    "v4-presigned/empty-signature", "v2-header/empty-signature", "v2-presigned/empty-signature",
 ];
 const HOOKS: &[&str] = &["none", "allow", "deny", "deny-op", "deny-typed"];
 const ROUTES: &[&str] = &["none", "matching", "non-matching"];
@@ -54,13 +57,24 @@ fn flip_last_sig_char(s: &str) -> String {
     String::from_utf8_lossy(&b).into_owned()
 }
 
+/// how many characters of the right signature a class keeps (None: the class keeps all of it)
+fn sig_keep(class: &str) -> Option<usize> {
+    if class.ends_with("/truncated-signature") {
+        Some(9)
+    } else if class.ends_with("/empty-signature") {
+        Some(0)
+    } else {
+        None
+    }
+}
+
 /// builds the request of a class from a captured anonymous request
 fn make(class: &str, base: &RawRequest) -> RawRequest {
     let mut r = base.clone();
     let digest = sha256_hex(&r.body);
     match class {
         "anonymous" => {}
-        "v4-header" | "v4-header/bad-signature" | "v4-header/unknown-key" | "duplicated-authorization" | "v4-header/unsigned-payload" => {
+        "v4-header" | "v4-header/bad-signature" | "v4-header/unknown-key" | "duplicated-authorization" | "v4-header/unsigned-payload" | "v4-header/truncated-signature" | "v4-header/empty-signature" => {
             let mut p = params();
             if class == "v4-header/unknown-key" {
                 p.access_key = "AKIDNOBODYKNOWSME001".into();
@@ -72,20 +86,41 @@ fn make(class: &str, base: &RawRequest) -> RawRequest {
                     *v = flip_last_sig_char(&String::from_utf8_lossy(v)).into_bytes();
                 }
             }
+            if let Some(keep) = sig_keep(class) {
+                if let Some((_, v)) = r.headers.iter_mut().find(|(k, _)| k == "authorization") {
+                    let t = String::from_utf8_lossy(v).into_owned();
+                    if let Some((head, sig)) = t.rsplit_once("Signature=") {
+                        *v = format!("{head}Signature={}", &sig[..keep.min(sig.len())]).into_bytes();
+                    }
+                }
+            }
             if class == "duplicated-authorization" {
                 let a = r.headers.iter().find(|(k, _)| k == "authorization").cloned().unwrap();
                 r.headers.push(a);
             }
         }
-        "v4-presigned" | "v4-presigned/bad-signature" => {
+        "v4-presigned" | "v4-presigned/bad-signature" | "v4-presigned/truncated-signature" | "v4-presigned/empty-signature" => {
             v4_presign(&mut r, &params(), 3600, &["host"]);
+            if let Some(keep) = sig_keep(class) {
+                if let Some((head, sig)) = r.uri.clone().rsplit_once("X-Amz-Signature=") {
+                    r.uri = format!("{head}X-Amz-Signature={}", &sig[..keep.min(sig.len())]);
+                }
+            }
             if class.ends_with("bad-signature") {
                 r.uri = flip_last_sig_char(&r.uri);
             }
         }
-        "v2-header" | "v2-header/bad-signature" => {
+        "v2-header" | "v2-header/bad-signature" | "v2-header/truncated-signature" | "v2-header/empty-signature" => {
             r.headers.push(("date".into(), crate::monitor::c06_http_date(now_unix()).into_bytes()));
             c11::sign_header_pub(&mut r, AK, SK);
+            if let Some(keep) = sig_keep(class) {
+                if let Some((_, v)) = r.headers.iter_mut().find(|(k, _)| k == "authorization") {
+                    let t = String::from_utf8_lossy(v).into_owned();
+                    if let Some((head, sig)) = t.rsplit_once(':') {
+                        *v = format!("{head}:{}", &sig[..keep.min(sig.len())]).into_bytes();
+                    }
+                }
+            }
             if class.ends_with("bad-signature") {
                 if let Some((_, v)) = r.headers.iter_mut().find(|(k, _)| k == "authorization") {
                     let s = String::from_utf8_lossy(v).into_owned();
@@ -96,8 +131,15 @@ fn make(class: &str, base: &RawRequest) -> RawRequest {
                 }
             }
         }
-        "v2-presigned" | "v2-presigned/bad-signature" => {
+        "v2-presigned" | "v2-presigned/bad-signature" | "v2-presigned/truncated-signature" | "v2-presigned/empty-signature" => {
             c11::sign_query_pub(&mut r, AK, SK, now_unix() + 3600);
+            if let Some(keep) = sig_keep(class) {
+                // the signature is the last parameter; keep a prefix that ends before any percent escape
+                if let Some((head, sig)) = r.uri.clone().rsplit_once("Signature=") {
+                    let cut = sig.find('%').map_or(keep, |i| keep.min(i)).min(sig.len());
+                    r.uri = format!("{head}Signature={}", &sig[..cut]);
+                }
+            }
             if class.ends_with("bad-signature") {
                 let (head, sig) = r.uri.rsplit_once("Signature=").map(|(a, b)| (a.to_owned(), b.to_owned())).unwrap_or_default();
                 let mut b = sig.into_bytes();
@@ -427,12 +469,16 @@ pub fn run(ctx: &RunCtx) -> i32 {
     // POST forms (PostObject is not in the smithy model)
     let secrets = keys();
     let mut g = Rng::new(ctx.seed);
-    for i in 0..ctx.tier.sz(20, 400) {
+    for i in 0..ctx.tier.sz(100, 6000) {
         let (mut form, _, policy) = c10::gen_form_for_key(&mut g, &secrets, AK);
         let _ = policy;
-        for (class, bad) in [("post-form", false), ("post-form/bad-signature", true)] {
-            if bad {
-                form.set("x-amz-signature", &"0".repeat(64));
+        let good_sig = form.get("x-amz-signature").unwrap_or("").to_owned();
+        for class in ["post-form", "post-form/bad-signature", "post-form/truncated-signature", "post-form/empty-signature"] {
+            match class {
+                "post-form/bad-signature" => form.set("x-amz-signature", &"0".repeat(64)),
+                "post-form/truncated-signature" => form.set("x-amz-signature", &good_sig[..9.min(good_sig.len())]),
+                "post-form/empty-signature" => form.set("x-amz-signature", ""),
+                _ => {}
             }
             let req = form.request(if i % 2 == 0 { None } else { Some(Framing::default()) });
             for hook in HOOKS {
